@@ -25,8 +25,8 @@ type verifScenario struct {
 	nargs       int  // number of positional arguments (0, 1, 2)
 	inputFlag   bool // -input given
 	readFails   bool // reading the input fails
-	badJSON     bool // input is not JSON
-	trailing    bool // input is a JSON value followed by garbage (invalid as a whole)
+	fileKind    int  // content of the -input file: 0 valid JSON, 1 invalid, 2 a JSON value followed by garbage, 3 empty
+	stdinKind   int  // content of standard input: 0 valid JSON, 1 invalid
 	parseFails  bool // expression does not parse
 	syntaxErr   bool // ... with a SyntaxError (else another error)
 	searchFails bool // evaluation error
@@ -36,7 +36,11 @@ var (
 	verifSc      verifScenario
 	verifOut     []string // lines printed on stdout
 	verifErrN    int      // writes to stderr
-	verifDoc     interface{}
+	verifDocFile  interface{}
+	verifDocStdin interface{}
+	verifSearched interface{}
+	verifFakeFile os.File
+	verifDecFile  bool
 	verifSearchRes  interface{}
 	verifAstFlag = false
 	verifInput   = ""
@@ -86,40 +90,62 @@ func verifReadFile(name string) ([]byte, error) {
 	if verifSc.readFails {
 		return nil, errors.New("read error")
 	}
-	return []byte("DATA"), nil
+	if verifSc.fileKind == 3 {
+		return []byte{}, nil
+	}
+	return []byte{'F', byte('0' + verifSc.fileKind)}, nil
 }
-func verifReadAll(r io.Reader) ([]byte, error) { return verifReadFile("") }
+func verifReadAll(r io.Reader) ([]byte, error) {
+	if f, ok := r.(*os.File); ok && f == &verifFakeFile {
+		return verifReadFile("")
+	}
+	return []byte{'S', byte('0' + verifSc.stdinKind)}, nil
+}
 func verifOsOpen(name string) (*os.File, error) {
 	if verifSc.readFails {
 		return nil, errors.New("open error")
 	}
-	return nil, nil
+	return &verifFakeFile, nil
 }
-func verifFileClose(f *os.File) error                { return nil }
-func verifNewDecoder(r io.Reader) *json.Decoder      { return nil }
-func verifBufioNewReader(r io.Reader) *bufio.Reader  { return nil }
+func verifFileClose(f *os.File) error { return nil }
+func verifNewDecoder(r io.Reader) *json.Decoder {
+	f, ok := r.(*os.File)
+	verifDecFile = ok && f == &verifFakeFile
+	return nil
+}
+func verifBufioNewReader(r io.Reader) *bufio.Reader { return nil }
+
+// verifStore: the decoded document of the source the bytes came from.
+func verifStore(v interface{}, fromFile bool) error {
+	p, ok := v.(*interface{})
+	if !ok {
+		return errors.New("unexpected target")
+	}
+	if fromFile {
+		*p = verifDocFile
+	} else {
+		*p = verifDocStdin
+	}
+	return nil
+}
 func verifDecode(d *json.Decoder, v interface{}) error {
 	// a Decoder reads one value and does not look at what follows it
-	if verifSc.badJSON && !verifSc.trailing {
+	if verifDecFile {
+		if verifSc.fileKind == 1 || verifSc.fileKind == 3 {
+			return errors.New("invalid json")
+		}
+		return verifStore(v, true)
+	}
+	if verifSc.stdinKind == 1 {
 		return errors.New("invalid json")
 	}
-	p, ok := v.(*interface{})
-	if !ok {
-		return errors.New("unexpected target")
-	}
-	*p = verifDoc
-	return nil
+	return verifStore(v, false)
 }
 func verifUnmarshal(data []byte, v interface{}) error {
-	if verifSc.badJSON {
+	if len(data) != 2 || data[1] != '0' {
 		return errors.New("invalid json")
 	}
-	p, ok := v.(*interface{})
-	if !ok {
-		return errors.New("unexpected target")
-	}
-	*p = verifDoc
-	return nil
+	return verifStore(v, data[0] == 'F')
 }
 func verifParserParse(p *jmespath.Parser, expression string) (jmespath.ASTNode, error) {
 	if verifSc.parseFails {
@@ -131,6 +157,7 @@ func verifParserParse(p *jmespath.Parser, expression string) (jmespath.ASTNode, 
 	return jmespath.ASTNode{}, nil
 }
 func verifLibSearch(expression string, data interface{}) (interface{}, error) {
+	verifSearched = data
 	if verifSc.searchFails {
 		return nil, errors.New("evaluation error")
 	}
@@ -147,12 +174,24 @@ func verifRunNative(sc verifScenario) (code int, stdout string, want string) {
 	} else if sc.searchFails {
 		expr = "abs('x')"
 	}
-	input := `{"a":{"b":[1,"100% done %s %d %%","x\ny <&> \u00e9",null,{"c":1.5,"%v":"%"}]}}`
-	if sc.badJSON {
-		input = "{"
-		if sc.trailing {
-			input = `{"a":{"b":[1,2]}} trailing`
-		}
+	fileText := `{"a":{"b":[1,"100% done %s %d %%","x\ny <&> \u00e9",null,{"c":1.5,"%v":"%"}]}}`
+	switch sc.fileKind {
+	case 1:
+		fileText = "{"
+	case 2:
+		fileText = `{"a":{"b":[1,2]}} trailing`
+	case 3:
+		fileText = ""
+	}
+	stdinText := `{"a":{"b":"from standard input"}}`
+	if sc.stdinKind == 1 {
+		stdinText = "{"
+	}
+	input := stdinText
+	inputOK := sc.stdinKind == 0
+	if sc.inputFlag {
+		input = fileText
+		inputOK = sc.fileKind == 0
 	}
 	dir, _ := ioutil.TempDir("", "jpgo-verif")
 	defer os.RemoveAll(dir)
@@ -163,15 +202,14 @@ func verifRunNative(sc verifScenario) (code int, stdout string, want string) {
 		if sc.readFails {
 			path = dir + "/missing.json"
 		} else {
-			ioutil.WriteFile(path, []byte(input), 0644)
+			ioutil.WriteFile(path, []byte(fileText), 0644)
 		}
 		args = append(args, "-input", path)
-	} else {
-		ioutil.WriteFile(dir+"/stdin", []byte(input), 0644)
-		f, _ := os.Open(dir + "/stdin")
-		os.Stdin = f
-		defer f.Close()
 	}
+	ioutil.WriteFile(dir+"/stdin", []byte(stdinText), 0644)
+	stdinF, _ := os.Open(dir + "/stdin")
+	os.Stdin = stdinF
+	defer stdinF.Close()
 	for i := 0; i < sc.nargs; i++ {
 		args = append(args, expr)
 	}
@@ -188,7 +226,7 @@ func verifRunNative(sc verifScenario) (code int, stdout string, want string) {
 	errF.Close()
 	b, _ := ioutil.ReadFile(dir + "/out")
 	var data interface{}
-	if !sc.badJSON && json.Unmarshal([]byte(input), &data) == nil {
+	if inputOK && json.Unmarshal([]byte(input), &data) == nil {
 		if r, err := jmespath.Search(expr, data); err == nil {
 			var buf bytes.Buffer
 			j, _ := json.MarshalIndent(r, "", "  ")
@@ -201,15 +239,19 @@ func verifRunNative(sc verifScenario) (code int, stdout string, want string) {
 }
 
 func VerifRun() {
-	sc := verifScenario{nargs: verifChoose(3), inputFlag: verifNondetBool(), readFails: verifNondetBool(), badJSON: verifNondetBool(), trailing: verifNondetBool(),
+	sc := verifScenario{nargs: verifChoose(3), inputFlag: verifNondetBool(), readFails: verifNondetBool(), fileKind: verifChoose(4), stdinKind: verifChoose(2),
 		parseFails: verifNondetBool(), syntaxErr: verifNondetBool(), searchFails: verifNondetBool()}
 	// only a named file can fail to be read in the native realisation
 	verifAssume(!sc.readFails || sc.inputFlag)
 	verifAssume(!sc.syntaxErr || sc.parseFails)
-	verifAssume(!sc.trailing || sc.badJSON)
+	verifAssume(sc.inputFlag || sc.fileKind == 0) // no file: its content is irrelevant
 	// an expression has one fate
 	verifAssume(!(sc.parseFails && sc.searchFails))
-	expectOK := sc.nargs == 1 && !sc.readFails && !sc.badJSON && !sc.parseFails && !sc.searchFails
+	inputValid := sc.stdinKind == 0
+	if sc.inputFlag {
+		inputValid = sc.fileKind == 0
+	}
+	expectOK := sc.nargs == 1 && !sc.readFails && inputValid && !sc.parseFails && !sc.searchFails
 	verifNote("ok", expectOK)
 	if verifNative() {
 		code, out, want := verifRunNative(sc)
@@ -228,8 +270,10 @@ func VerifRun() {
 	}
 	verifSc = sc
 	verifOut, verifErrN = nil, 0
-	verifDoc = verifNondetJSON(1)
+	verifDocFile = verifNondetJSON(1)
+	verifDocStdin = verifNondetJSON(1)
 	verifSearchRes = verifNondetJSON(1)
+	verifSearched = nil
 	code := run()
 	verifNote("code0", code == 0)
 	marshalFailed := code != 0 && expectOK && len(verifOut) == 0
@@ -238,6 +282,11 @@ func VerifRun() {
 	}
 	verifAssert((code == 0) == expectOK, "C19:exit-status")
 	if expectOK {
+		wantDoc := verifDocStdin
+		if sc.inputFlag {
+			wantDoc = verifDocFile
+		}
+		verifAssert(verifSameNode(verifSearched, wantDoc), "C19:searched-the-given-input")
 		verifAssert(len(verifOut) == 1, "C19:stdout-is-the-library-result")
 		if len(verifOut) == 1 {
 			verifAssert(verifMarshalOf(verifOut[0], verifSearchRes), "C19:stdout-is-the-library-result")
